@@ -449,7 +449,7 @@ def run(prop, argv, meta_focus):
             if si % 4 == 3 and nostuck and not any(o[0] in "XY" for t in th for o in t):
                 j = si // 4
                 cap = 1 << k
-                spur |= (1 + j % 4) << 3
+                spur |= (1 + j % 5) << 3      # 5 = used, then reserve_and_clear(same capacity), then the program
                 spur |= [1, cap, max(cap - 1, 0), 0, cap, 1][j % 6] << 6
             if chk.replay:
                 spur = replay_flags
